@@ -46,6 +46,21 @@ def render(case):
 
 
 def execute(case):
+    # every file of the generated lists can be stored on a tape: a writer that raises has not written the stream
+    try:
+        return _execute(case)
+    except casref.TapeError:
+        raise
+    except Exception as err:
+        import traceback
+        frames = traceback.extract_tb(err.__traceback__)
+        if frames and os.path.abspath(frames[-1].filename).startswith(os.path.abspath(driver.REPO) + os.sep):
+            return viol("writing the files raised {}: {}".format(type(err).__name__, err),
+                        fid="C14:raise:" + type(err).__name__, labels=[])
+        raise
+
+
+def _execute(case):
     from cocoasm.virtualfiles.cassette import CassetteFile
     datas = [filegen.expand(f["data"]) for f in case["files"]]
     tape = CassetteFile()
